@@ -696,6 +696,7 @@ func (f *Frame) builtin(name string, cc *ssa.CallCommon, args []Val, st *State, 
 		m, k := args[0], args[1]
 		mt := m.T.Underlying().(*types.Map)
 		e.guardCheckMap(f, st, cc.Args[0], true, pos)
+		e.rangeNoMutate(f, st, e.curBlock, mt, m.S, pos)
 		key := e.mapKey(mt)
 		d, n := e.getMapD(st, mt), e.getMapN(st, mt)
 		kt := e.keyTerm(k, mt.Key())
@@ -711,6 +712,7 @@ func (f *Frame) builtin(name string, cc *ssa.CallCommon, args []Val, st *State, 
 		switch u := a.T.Underlying().(type) {
 		case *types.Map:
 			e.guardCheckMap(f, st, cc.Args[0], true, pos)
+			e.rangeNoMutate(f, st, e.curBlock, u, a.S, pos)
 			key := e.mapKey(u)
 			d, n := e.getMapD(st, u), e.getMapN(st, u)
 			st.mapN[key] = e.define("mn", "(Array Int Int)", sIte(sEq(a.S, "0"), n, fmt.Sprintf("(store %s %s 0)", n, a.S)))
